@@ -26,6 +26,8 @@ MAX_LOOP = 600
 # ----------------------------------------------------------------------------
 from .framescan import record as _frame_record
 
+ASSUME_SITES = {}
+
 class PyRaise(Exception):
     def __init__(self, exc):
         self.exc = exc
@@ -239,6 +241,14 @@ class Exec:
         return r != z3.unsat
 
     def assume(self, c, tag=None):
+        # mechanical record of every assumption site outside the executor itself (harness preconditions, dependency contracts,
+        # representation invariants): reported in the evidence so that nothing assumed goes unlisted
+        import sys as _sys
+        fr_ = _sys._getframe(1)
+        fn_ = fr_.f_code.co_filename
+        if '/pyvc/symex.py' not in fn_ and '/pyvc/values.py' not in fn_:
+            k_ = f"{fn_.split('/verif/')[-1]}:{fr_.f_code.co_name}"
+            ASSUME_SITES[k_] = ASSUME_SITES.get(k_, 0) + 1
         if isinstance(c, Sym):
             c = bool_term(c)
         elif isinstance(c, bool):
